@@ -445,6 +445,9 @@ def gen_swarm(rng, tier="quick"):
     sw["foreign"] = rng.random() < 0.2
     if sw["foreign"]:
         sw["nops"] += 2
+    sw["peek"] = rng.random() < 0.025
+    if sw["peek"]:
+        sw["nops"] += 1
     return sw
 
 
@@ -466,6 +469,9 @@ def gen_op(rng, m: Model, swarm, nalg, prev=(), step=0):
     forced = swarm.pop("_force_filter", None)
     if forced is not None:
         return forced
+    if swarm.get("peek") and not (echo and step < len(echo)) and rng.random() < 0.3:
+        # a read-only public call in between (the plotting helpers of the setup): it must leave everything as it is
+        return {"op": "peek", "what": rng.choice(["plot_ch_info", "plot_ch_info", "plot_data", "plot_STFT"])}
     if swarm.get("foreign") and not (echo and step < len(echo)) and step > 0 and rng.random() < 0.3:
         # another setup object alive in the same process is worked on in between (not judged itself): whatever one
         # setup keeps at class or module level must not reach the other
@@ -623,6 +629,27 @@ def _call_real(setup, op):
     raise AssertionError(k)
 
 
+def _peek(setup, op, m):
+    """One of the setup's plotting helpers with its default selection of channels / datasets. Whether the plot itself
+    succeeds is not this property's business; what it leaves behind is."""
+    import matplotlib
+
+    matplotlib.use("Agg", force=True)
+    import matplotlib.pyplot as plt
+
+    nmin = min(d.shape[0] for d in m.ds)
+    nx = int(max(8, min(128, nmin // 3)))
+    try:
+        if op["what"] == "plot_data":
+            setup.plot_data()
+        else:
+            getattr(setup, op["what"])(nxseg=nx)
+    except Exception:
+        pass
+    finally:
+        plt.close("all")
+
+
 def _foreign_op(store, world, op, ops_so_far):
     """Work on another setup object (own data, another sampling frequency). Never judged; errors are its own."""
     from pyoma2.setup import MultiSetup_PreGER, SingleSetup
@@ -678,6 +705,7 @@ def run_case(seed, tier="quick", case=None, known=()):
             swarm["nops"] = min(swarm["nops"], 3)
             swarm.pop("echo", None)
             swarm["foreign"] = False
+            swarm["peek"] = False
             swarm["faulty"] = False
             swarm["w"]["filter"] = max(swarm["w"]["filter"], 3.0)
         if world.get("fs_as") == "nd0":
@@ -770,7 +798,15 @@ def run_case(seed, tier="quick", case=None, known=()):
         fault = op.get("fault")
         outcome = "ok"
         plan.reset()
-        if k == "foreign":
+        if k == "peek":
+            _peek(setup, op, m)
+            inc("probe.read_only_call_in_between")
+            v, kn = cmp_state(m, observe(setup, m.kind), m.ds, m.fs, m.T_stale, f"after the read-only call {op['what']}()")
+            for o, d in v:
+                stop |= violate("iso.read_only_call", op, step, f"{o}: {d}")
+            for o, d in kn:
+                violate(o, op, step, d, is_known=True)
+        elif k == "foreign":
             _foreign_op(_foreign, world, op, res["ops"])
             inc("probe.operation_on_another_setup_in_between")
             v, kn = cmp_state(m, observe(setup, m.kind), m.ds, m.fs, m.T_stale, "after an operation on ANOTHER setup object")
@@ -964,7 +1000,7 @@ def _finish(res, log, m):
     res["log"] = log.dump()
     sig = [s for s in res["sig"]]
     res["signature"] = res["world"]["kind"] + "|" + ">".join(sig)
-    kinds = [s.split(":")[0] for s in sig if not s.startswith("foreign:")]
+    kinds = [s.split(":")[0] for s in sig if not s.startswith(("foreign:", "peek:"))]
     res["opseq3"] = [res["world"]["kind"] + "|" + ">".join(kinds[:n]) for n in range(1, min(4, len(kinds)) + 1)]
     ok_changes = sum(1 for s in sig if s.split(":")[1] == "ok" and s.split(":")[0] in ("decimate", "detrend", "filter", "rollback"))
     res["nontrivial"] = ok_changes >= 2 or any(s.endswith(":fault") for s in sig)
